@@ -383,38 +383,40 @@ theorem unlocated_created_nodes :
     kind in an already listed function does not disturb the table) -/
 def sameSet {α : Type} [BEq α] (xs ys : List α) : Bool := xs.all (ys.contains ·) && ys.all (xs.contains ·)
 
-/-- **Every error site is located, except the listed ones** (as sets of (file, function, …)).
-    Located: the lexer at `l.loc`, the parser at the current token, the checker at the offending node,
-    the fold errors and the const-expr error at the rewritten node, the VM at `program.Locations[vm.pp]`.
-    Unlocated: the misuse check of `Eval`, the `expect` error of `checker.Check`, the recover of
-    `compiler.Compile`, the option checks of conf/config.go (`Check`, and `ConstExpr` with its recover),
-    `vm.Run(nil)` — all plain `fmt.Errorf` — and ONE `file.Error` literal without `Location`: the
-    default branch of `checker.visit` ("undefined node type", since b1d37f1 an error instead of a
-    panic), reachable only with a malformed tree produced by a user visitor, for which no source
-    position exists.  The `fmt.Errorf` of lexer/utils.go are re-raised by `root` through the located
+/-- the forms a located error's `Location` expression takes, per file: the node at hand (by value or through the
+    `*Node` the visitor gets), the parser's current token, the lexer's position, the VM's location table -/
+def locatedForms : List (String × String) :=
+  [("checker/checker.go", "node.Location()"),
+   ("optimizer/const_expr.go", "(*node).Location()"), ("optimizer/const_expr.go", "node.Location()"),
+   ("optimizer/fold.go", "(*node).Location()"), ("optimizer/fold.go", "node.Location()"),
+   ("parser/parser.go", "p.current.Location"),
+   ("parser/lexer/lexer.go", "l.loc"),
+   ("vm/vm.go", "program.Locations[vm.pp]")]
+
+/-- **Every error site is located, except the listed ones.**  Stated without function names (a helper extracted
+    from `Check` or from `(*fold).Exit` keeps the property; the earlier statement pinned (file, function) pairs and
+    raised a false alarm on exactly such refactorings — section 10 of DESIGN.md): every located construction uses
+    one of the location forms of its file and each of the six files has one; the *set* of (file, kind) of the unlocated
+    constructions is the listed one (multiplicities are left to the single-fault oracle on the real code: a helper may
+    merge two identical messages).
+    Unlocated: the misuse check of `Eval`, the two `expect` errors of the checker, the recover of
+    `compiler.Compile`, the option checks of conf/config.go, `vm.Run(nil)` — all plain `fmt.Errorf` — and ONE
+    `file.Error` literal without `Location`: the default branch of `checker.visit` ("undefined node type", since
+    b1d37f1 an error instead of a panic), reachable only with a malformed tree produced by a user visitor, for which
+    no source position exists.  The `fmt.Errorf` of lexer/utils.go are re-raised by `root` through the located
     `l.error("%v", err)`. -/
 theorem every_error_site_is_located :
-    sameSet ((Gen.Loc.errSites.filter (fun e => e.loc != "")).map (fun e => (e.file, e.fn, e.loc)))
-      [("checker/checker.go", "(*visitor).error", "node.Location()"),
-       ("optimizer/const_expr.go", "(*constExpr).Exit", "(*node).Location()"),
-       ("optimizer/fold.go", "(*fold).Exit", "(*node).Location()"),
-       ("parser/parser.go", "(*parser).error", "p.current.Location"),
-       ("parser/lexer/lexer.go", "(*lexer).error", "l.loc"),
-       ("vm/vm.go", "(*VM).Run", "program.Locations[vm.pp]")] = true ∧
+    (Gen.Loc.errSites.filter (fun e => e.loc != "")).all (fun e => locatedForms.contains (e.file, e.loc)) = true ∧
+    (locatedForms.map (·.1)).all (fun f => Gen.Loc.errSites.any (fun e => e.file == f && e.loc != "")) = true ∧
     sameSet ((Gen.Loc.errSites.filter (fun e => e.loc == "" && e.file != "parser/lexer/utils.go")).map
-        (fun e => (e.file, e.fn, e.kind)))
-      [("expr.go", "Eval", "fmt.Errorf"),
-       ("checker/checker.go", "Check", "fmt.Errorf"),
-       ("checker/checker.go", "(*visitor).visit", "file.Error"),
-       ("compiler/compiler.go", "Compile", "fmt.Errorf"),
-       ("conf/config.go", "(*Config).Check", "fmt.Errorf"),
-       ("conf/config.go", "(*Config).ConstExpr", "fmt.Errorf"),
-       ("vm/vm.go", "Run", "fmt.Errorf")] = true ∧
+        (fun e => (e.file, e.kind)))
+      [("expr.go", "fmt.Errorf"), ("checker/checker.go", "fmt.Errorf"), ("checker/checker.go", "file.Error"),
+       ("compiler/compiler.go", "fmt.Errorf"), ("conf/config.go", "fmt.Errorf"), ("vm/vm.go", "fmt.Errorf")] = true ∧
     (Gen.Loc.errSites.filter (fun e => e.file == "parser/lexer/utils.go")).all
-        (fun e => e.fn == "unescape" || e.fn == "unescapeChar") = true ∧
+        (fun e => e.kind == "fmt.Errorf" && e.loc == "") = true ∧
     Gen.Loc.unescapeErrorWrapped = true ∧
-    (Gen.Loc.errSites.filter (fun e => e.kind == "file.Error" && e.loc == "")).map (fun e => (e.file, e.fn)) =
-      [("checker/checker.go", "(*visitor).visit")] := by
+    (Gen.Loc.errSites.filter (fun e => e.kind == "file.Error" && e.loc == "")).map (fun e => e.file) =
+      ["checker/checker.go"] := by
   decide +kernel
 
 /-- the node whose location each `v.error(node, …)` of the checker uses: the node being checked,
@@ -431,10 +433,8 @@ theorem checker_error_nodes :
 /-- `checker.Check` returns the located first error BEFORE the unlocated `expect` error (since fix
     76735a9; the other order masked the location: `c13:expect-masks-located-error`) -/
 theorem check_returns_located_error_first :
-    Gen.Loc.checkTail =
-      ["if v.err != nil { return t, v.err.Bind(tree.Source) }",
-       "if v.expect != reflect.Invalid { switch v.expect { case reflect.Int64, reflect.Float64: if !isNumber(t) { return nil, fmt.Errorf(\"expected %v, but got %v\", v.expect, t) } default: if t == nil || t.Kind() != v.expect { return nil, fmt.Errorf(\"expected %v, but got %v\", v.expect, t) } } }",
-       "return t, nil"] := by
+    Gen.Loc.checkTail.head? = some "if v.err != nil { return t, v.err.Bind(tree.Source) }" ∧
+    Gen.Loc.checkTail.getLast? = some "return t, nil" := by
   decide +kernel
 
 /-- lexer and parser bind their first error to the source they were given -/
